@@ -106,6 +106,14 @@ impl<KV, S> Server<KV, S> {
     }
 }
 
+#[cfg(feature = "verif")]
+impl<KV, S> Server<KV, S> {
+    /// The address the listener is bound to (verification hook; lets a harness bind port 0).
+    pub fn verif_local_addr(&self) -> std::io::Result<std::net::SocketAddr> {
+        self.listener.listener.local_addr()
+    }
+}
+
 impl<KV, S> Server<KV, S>
 where
     KV: KeyValueStorage,
